@@ -210,7 +210,7 @@ def run(chk, replay=None):
     traces, metas = [], []
     for ci, case in enumerate(cases):
         src = fix_src(case['src'])
-        variant = ci % 5
+        variant = rng.randrange(5)
         table = {e: typed_event(e, variant, chk.seed) for e in range(1, 7)}
         steps = R.run_history(src, case['hist'], table)
         traces.append({'src': src, 'steps': [{'op': s['op'], 'obj': s['obj'], 'exact': s['exact']} for s in steps]})
